@@ -14,11 +14,12 @@ def run(ctx):
     RK.normalize_assigns_together(ctx, "R15.f")
     RL.reductions_never_shrink(ctx, "R15.g")
     RK.word_shape_rules(ctx, "R15.h")
+    RK.class_predicates(ctx, "R15.i")
     return info("R15.a: stage order on both builder chains (normalize first; fin before split; split before strip/pos/stem; "
                 "strip before pos/stem; lower before pos/stem); R15.b/c: query and record tokenisers run the same stages with "
                 "equal split/strip class sets {Whitespace,Control,Punctuation}/{NotAlphaNum}, fin(false) only for queries; "
                 "R15.d: every Text method that filters/replaces `words` renumbers offsets afterwards; R15.e: emptied words are "
                 "dropped after strip; R15.f: classes resized to chars.len() before writing, normalize updates source/chars/"
                 "slice together with the right pairing; R15.g: reductions never shrink and padding = len(norm)-len(orig); "
-                "R15.h: split/strip keep the finished flag and slice arithmetic in the recognised shape. Stem length range "
+                "R15.h: split/strip keep the finished flag and slice arithmetic in the recognised shape. R15.i: each CharClass arm of the pattern matcher is the std predicate its name says. Stem length range "
                 "(Snowball) and the scanning loops are not decided.")
